@@ -52,7 +52,7 @@ def leg_T(ctx, sessions, only=None):
     tpath = os.path.join(ctx.work, "sam_trace.ndjson")
     ctx.vh(["sam-drive", tpath, sessions] + ([only] if only is not None else []))
 
-    codec.judge_trace(ctx, "Trace_Sam", tpath, {"driver": "sam-drive", "sessions": sessions},
+    codec.judge_trace(ctx, "Trace_Sam", tpath, {"driver": "sam-drive", "sessions": sessions}, heap="12g", maxset=100000000,
                       describe=lambda e: ("write %s -> %s" % (json.dumps(e["rec"])[:300], bytes(e["bw"])[:200]) if e["op"] == "write" else
                                           "read/%s of %s: %d items (%s), wanted %d" % (e["mode"], bytes(e["bytes"])[:300], len(e["items"]),
                                                                                      "".join(i["k"][0] for i in e["items"][:40]), len(e["want"]))))
